@@ -310,10 +310,22 @@ def fit_view(rep, which):
     rsq = f["rsq"]
     out = {"gradient": qf(f["gradient"]), "intercept": qf(f["intercept"]),
            "rsq": rsq if rsq in (None, "nan") else qf(rsq)}
-    if which == "model":
-        out["error"] = None if f["err2"] is None else math.sqrt(qf(f["err2"]))
-        out["weights"] = [qf(w) for w in rep["weights"]]
+    e2 = f.get("err2")
+    out["error"] = None if e2 is None else math.sqrt(max(qf(e2), 0.0))
+    out["weights"] = [qf(w) for w in rep["weights" if which == "model" else "spec_weights"]]
     return out
+
+
+def weights_finite_where_finite(rows, weighting, got_w):
+    """the property's clause on the observed `weights` attribute: every finite entry of the column the weights are
+    derived from (x, or y for the y-based weightings) has a finite weight - zeros included"""
+    col = 1 if "y" in weighting else 0
+    if len(got_w) != len(rows):
+        return False
+    for r, w in zip(rows, got_w):
+        if r[col] is not None and (w is None or not math.isfinite(w)):
+            return False
+    return True
 
 
 def weights_equal(impl_w, model_w):
@@ -385,7 +397,9 @@ class C06(Prop):
     trusted = [
         "np.polynomial.polynomial.polyfit(x, y, 1, w=sqrt(w)) returns the minimiser of the weighted residual sum of a "
         "full-rank system and np.cov(aweights=w) the weighted covariance matrix; the correspondence measures both "
-        "against the closed forms at relative 1e-9 (column-scaled norm), cases with D/(Sw*Swxx) < 1e-6 are undetermined",
+        "against the closed forms at relative 1e-9 (column-scaled norm), loosened to the first-order perturbation bound "
+        "1e-9 + 32*2^-52*(kappa + kappa^2*tan(theta)), kappa^2 = 4/rho, rho = D/(Sw*Swxx), when that is larger; cases with "
+        "rho < 1e-6 or with that bound above 1e-5 are undetermined (counted, never a verdict)",
         "float evaluation of 1/x, 1/x**2 and of (data - intercept)/gradient is within 1e-15 relative of the exact value",
     ]
     assumptions = [
@@ -395,7 +409,15 @@ class C06(Prop):
         "[[0, 0.0233], [1000, 8832044]] with 1/(y^2): weights 1839.7 and 1.28e-14, rsq = NaN, exact value 1)",
         "point sets whose usable rows do not have two distinct concentrations, or whose weights are not all positive, "
         "are outside the property's hypothesis; only the weights and 'does not change' are not demanded there",
-        "`error` is not part of the property statement; it is compared with the model only (correspondence)",
+        "`error` is not part of the property statement; it is compared (under impl-vs-model) with the mechanism's value and "
+        "with its own specification - the residual variance about the textbook line written with raw sums "
+        "(`specErr2`, equal to the mechanism by `err2_is_residual_variance`)",
+        "the observed `weights` are compared with the entry-by-entry specification `specWeights`; the clause 'a zero "
+        "concentration never produces an infinite or NaN weight' is demanded of pewlib wherever the Lean specification "
+        "says it binds: two usable rows with distinct concentrations, hence (`two_levels_hasNonzero`; for the y-based "
+        "weightings: positive responses) some entry of the column the weights are derived from is finite and not zero "
+        "(`hasNonzero`).  With nothing but zeros and NaNs the weights of the zeros are NaN "
+        "(`zero_weight_nan_iff`): outside the quantifier, compared with the specification only",
     ]
 
     # ------------------------------------------------------------------ generation
@@ -531,6 +553,12 @@ class C06(Prop):
             for rows in ([], [[1.0, 2.0]], [[1.0, 2.0], [None, 3.0]], [[None, None]], [[1.0, None], [2.0, None], [None, 1.0]]):
                 yield {"kind": "fit", "rows": rows, "weighting": w, "cw": None, "perms": allp(len(rows)) if len(rows) > 1 else []}
             yield {"kind": "fit", "rows": [[0.0, 1.0], [2.0, 3.0]], "weighting": w, "cw": None, "perms": allp(2)}
+            # nothing but zeros and NaNs in the column the weights are derived from: the weights of the zeros are NaN
+            # (zero_weight_nan_iff) - outside the quantifier, compared with the specification
+            yield {"kind": "fit", "rows": [[0.0, 1.0], [None, 2.0]] if "y" not in w else [[1.0, 0.0], [2.0, None]],
+                   "weighting": w, "cw": None, "perms": allp(2)}
+            yield {"kind": "fit", "rows": [[0.0, 1.0], [0.0, 2.0], [None, 3.0]] if "y" not in w else
+                   [[1.0, 0.0], [2.0, 0.0], [3.0, None]], "weighting": w, "cw": None, "perms": allp(3)}
         yield {"kind": "fit", "rows": [base[0], [0.5, None]] + base[1:], "weighting": "Custom", "cw": [1.0, None, 2.0, 0.5],
                "perms": allp(4)}
         yield {"kind": "fit", "rows": base + [[3.0, 5.0]], "weighting": "Custom", "cw": [3.0, 1.0, 2.0, 0.5], "perms": allp(4)}
@@ -589,6 +617,7 @@ class C06(Prop):
         spec_ok = model_ok = True
         variants.append(("refit", rows, cw))
         hist_feats, nhist = set(), 0
+        n_finite_required = 0
         for h in case.get("hists", []):
             r = resolve_history(h, rows, weighting, cw)
             if r is not None:
@@ -621,10 +650,17 @@ class C06(Prop):
                     spec_ok = model_ok = False
                 spec.append(spec_fit)
                 continue
-            w_ok = weights_equal(got["weights"], mv["weights"])
-            model_ok = model_ok and w_ok
-            # weights at the observation point: finite wherever the model (weights_finite) says so
-            spec_ok = spec_ok and w_ok
+            model_ok = model_ok and weights_equal(got["weights"], mv["weights"])
+            # the weights against their own (entry-by-entry) specification, and the clause "a zero concentration never
+            # produces an infinite or NaN weight" wherever the Lean specification says it binds (some entry of the
+            # column is finite and not zero - implied by two distinct concentrations)
+            sw = fit_view(rep, "spec")["weights"]
+            spec_ok = spec_ok and weights_equal(got["weights"], sw)
+            if rep["weights_finite_required"]:
+                if not rep["spec_weights_finite"]:
+                    raise core.InternalError("driver: specification weights not finite under hasNonzero (contradicts weights_finite_of_nonzero)")
+                spec_ok = spec_ok and weights_finite_where_finite(rows if name == "hist" else vrows, weighting, got["weights"])
+                n_finite_required += 1
             if not fitted:
                 spec.append({"gradient": 1.0, "intercept": 0.0, "rsq": None, "error": None})
                 ok = is_identity(got)
@@ -635,16 +671,23 @@ class C06(Prop):
                 continue
             spec_ok = spec_ok and fit_close(got, spec_fit, base, check_rsq, TOL=tol_fit)
             m_ok = fit_close(got, mv, base, check_rsq, TOL=tol_fit)
-            if m_ok and isinstance(got["error"], float) and mv["error"] is not None:
+            if m_ok and isinstance(got["error"], float) and mv["error"] is not None and spec_fit["error"] is not None:
+                # `error` against the mechanism's value and against its own specification (residual variance with
+                # raw sums about the textbook line; equal by `err2_is_residual_variance`)
                 scale = max([abs(y) for _, y in clean_rows] + [0.0]) + abs(mv["intercept"]) \
                     + abs(mv["gradient"]) * max([abs(x) for x, _ in clean_rows] + [0.0])
-                m_ok = abs(got["error"] - mv["error"]) <= 1e-7 * mv["error"] + 1e-9 * scale
+                m_ok = abs(got["error"] - mv["error"]) <= 1e-7 * mv["error"] + 1e-9 * scale \
+                    and abs(got["error"] - spec_fit["error"]) <= 1e-7 * spec_fit["error"] + 1e-9 * scale
             elif m_ok:
                 m_ok = False
             model_ok = model_ok and m_ok
         feats = self.fit_features(case, clean_rows, fitted, hyp, check_rsq, hist_feats)
         if dominant:  # always counted in the evidence; only r² is skipped, gradient/intercept are still compared
             feats = set(feats) | {"dominant-weight(1-Σw²/(Σw)²<1e-12: r2 not compared)"}
+        if feats and n_finite_required:
+            feats = set(feats) | {"weights:finite-clause-binds"}
+        if feats and weighting in BUILTIN and weighting != "Equal" and not n_finite_required and rows:
+            feats = set(feats) | {"weights:only-zeros-and-NaN(clause does not bind)"}
         return outcome({"variants": impl}, {"variants": model}, {"variants": spec}, spec_ok=spec_ok, model_ok=model_ok,
                        undetermined=undet, hyp=(hyp or not fitted), features=feats,
                        note=f"variants: clean, given, {len(case['perms'])} permutations, refit, {nhist} histories")
@@ -757,6 +800,8 @@ class C06(Prop):
         rep = ctx.driver.call("c06.calibrate", gradient=core.rat(g), intercept=core.rat(c),
                               responses=[orat(float(v)) for v in resp.ravel()],
                               concentrations=[orat(float(v)) for v in conc.ravel()])
+        if not rep["on_line"]:
+            raise core.InternalError("driver: calibrate on the exact line does not return the concentrations (contradicts calibrate_inverts)")
         model = {"shape": list(shape), "data": [qf(v) for v in rep["model"]]}
         spec = {"shape": list(shape), "data": [qf(v) for v in rep["spec"]]}
         if "raises" in impl:
